@@ -230,3 +230,46 @@ def connected(h):
     ok_members = all(any(k in c and m == c - {k} for c in comps) for k, m in got)
     h.check('one-key-per-connected-component', 'ok', ok=ok_keys)
     h.check('each-keys-set-is-the-rest-of-its-component', 'ok', ok=ok_members)
+
+
+# ---------------------------------------------------------------------------- with_mean / with_variance / with_spread / normalized
+def _moment_decorator(h, which):
+    """x' = impose_<moment>(target, c(x)) unless c(x) already conforms (|moment - target| <= 1e-18 + 1e-7 |target|, the
+    library's almostEqual): the result has EXACTLY the target moment, or is c(x) itself when that already conforms; the
+    decorated constraints function is applied once to the caller's vector.  n = 3, the moment transforms executed (their
+    own contracts are in C18)"""
+    from contracts.measures_moments import _mean, _var
+    n = 3
+    t = h.real('target')
+    x = h.vec('x', n)
+    inner = h.fn('CONSTRAINTS', ret='same', log='inner')
+    dec = h.call(h.get(K + which), t)
+    f = h.call(dec, inner)
+    c = h.call(h.fn('CONSTRAINTS', ret='same'), x)          # the value the inner constraints function returns for x
+    stat = {'with_mean': _mean('c', n), 'with_variance': _var('c', n), 'with_spread': None, 'normalized': 'c[0] + c[1] + c[2]'}[which]
+    env = dict(c=c, t=t)
+    if which == 'with_variance':
+        # non-degenerate samples, as for impose_variance; stated through the library's own variance (proved equal to
+        # the textbook formula in C18/variance) so that the guard `if not sv` in impose_variance is decided syntactically
+        v0 = h.call(h.get('mystic/math/measures.py::variance'), c)
+        h.assume('t >= 0 and v0 > 0 and %s > 0' % stat, v0=v0, **env)
+    if which == 'with_spread':
+        h.assume('t >= 0 and c[0] <= c[1] and c[1] <= c[2] and c[0] < c[2]', **env)
+        stat = 'c[2] - c[0]'
+    if which == 'normalized':
+        h.assume('t != 0 and c[0] + c[1] + c[2] != 0', **env)
+        sgn = h.choice('negative_entries', [(a, b, d) for a in (False, True) for b in (False, True) for d in (False, True)])
+        h.assume(' and '.join('c[%d] %s 0' % (i, '<' if neg else '>=') for i, neg in enumerate(sgn)), **env)
+    y = h.call(f, x)
+    calls = h.log('inner')
+    h.check('decorated-constraints-applied-once-to-the-callers-vector', 'len(calls) == 1 and seq_eq(calls[0][0], x)', calls=calls, x=x)
+    ystat = {'with_mean': _mean('y', n), 'with_variance': _var('y', n), 'with_spread': 'max(y[0], y[1], y[2]) - min(y[0], y[1], y[2])',
+             'normalized': 'y[0] + y[1] + y[2]'}[which]
+    conforms = 'abs(%s - t) <= 1e-18 + 1e-7 * abs(t)' % stat
+    h.check('target-reached-exactly-or-input-already-conforming-and-returned-unchanged',
+            'len(y) == 3 and ((%s == t) or ((%s) and seq_eq(y, c)))' % (ystat, conforms), y=y, **env)
+    h.check('conforming-input-left-alone', 'implies(%s, seq_eq(y, c))' % conforms, y=y, **env)
+
+
+for _w in ('with_mean', 'with_variance', 'with_spread', 'normalized'):
+    contract('C16/constraints.%s' % _w, ['C16', 'C18'], K + _w + '.decorate.factory', samples=150)(lambda h, w=_w: _moment_decorator(h, w))
